@@ -152,6 +152,10 @@ def open_backend(kind, root, name='A', cached=None):
     if tail == 'file_json':
         return ka.file_archive(os.path.join(root, name + '.json'), cached=cached, protocol='json')
     if tail == 'file_src':
+        # the import-based reader chdir()s next to the file and imports by bare name: it can only
+        # read when '' (cwd) is on sys.path, as in an interactive / -c / -m session (finding D9b, C04)
+        if '' not in sys.path:
+            sys.path.insert(0, '')
         return ka.file_archive(os.path.join(root, name + '_src.py'), cached=cached, serialized=False)
     if tail == 'dir_dill':
         return ka.dir_archive(os.path.join(root, name + '_d'), cached=cached)
@@ -239,6 +243,18 @@ class Fn(object):
         exec(compile(src, '<generated ref>', 'exec'), ns2)
         self.ref = ns2['f']
         self.source = src
+
+    def set_raising(self, cfg, raising):
+        """raising: [[pool index, exception class name], ...]; one pre-built exception instance per argument tuple"""
+        import builtins
+        ns = {'_D': dict((n, V.build(s)) for n, s in list(self.sig.get('opt', [])) + list(self.sig.get('kwopt', []))),
+              '_body': self._canon}
+        exec(compile(self.source, '<generated canon>', 'exec'), ns)
+        for i, cls in raising:
+            a, k = spell(self.sig, cfg['pool'][i % len(cfg['pool'])], 0)
+            c = ns['f'](*a, **k)
+            if c not in self.raising:
+                self.raising[c] = getattr(builtins, cls)('generated failure #%d' % i)
 
     @staticmethod
     def _canon(named, va, vk):
@@ -395,6 +411,7 @@ class Trace(object):
         self.cfg = cfg
         self.steps = []
         self.setup_exc = None
+        self.sessions = []
         self.fn = None
         self.f = None
         self.cache = None
@@ -412,6 +429,8 @@ class Session(object):
         self.cfg = cfg
         self.root = root
         self.fn = fn or Fn(cfg['sig'], cfg.get('rmode', 'str'), None)
+        if fn is None and cfg.get('raising'):
+            self.fn.set_raising(cfg, cfg['raising'])
         if cacheobj == 'open':
             cacheobj = open_backend(cfg['backend'], root, name)
         self.cacheobj = cacheobj
@@ -515,7 +534,10 @@ def expand_ops(ops):
     the way to push the LRU usage queue past its compaction threshold"""
     out = []
     for op in ops:
-        if op[0] == 'burst':
+        if op[0] == 'dumpreopen':
+            out.append(['dump'])
+            out.append(['reopen'])
+        elif op[0] == 'burst':
             i, n = op[1], op[2]
             j = op[3] if len(op) > 3 else i
             for t in range(n):
@@ -525,14 +547,19 @@ def expand_ops(ops):
     return out
 
 
-def run_history(case, root=None, ops=None):
-    """build the decorated function of `case` and apply its ops; returns Trace"""
+def run_history(case, root=None, ops=None, fork_check=None):
+    """build the decorated function of `case` and apply its ops; returns Trace.
+    Session ops: ['redecorate'] new function object + decorator instance on the same cache object;
+    ['reopen'] new decorator on a fresh handle to the same location (persistent backends; else = redecorate);
+    ['fork', [ops]] a forked child process re-creates the decorated function on the archive location, applies ops and
+    returns fork_check(case, child_trace) through a pipe."""
     cfg = case
     tr = Trace(cfg)
     own = None
     if root is None:
         own = Scratch()
         root = own.path
+    sessions = []
     try:
         try:
             sess = Session(cfg, root)
@@ -541,15 +568,84 @@ def run_history(case, root=None, ops=None):
                 raise
             tr.setup_exc = e
             return tr
+        sessions.append(sess)
         tr.fn, tr.f, tr.cache = sess.fn, sess.f, sess.cache
+        tr.sessions = sessions
         prev = None
         for op in expand_ops(ops if ops is not None else cfg['ops']):
+            if op[0] in ('redecorate', 'reopen'):
+                st = Step(op=op, kind=op[0])
+                try:
+                    if op[0] == 'reopen' and backend_persistent(cfg['backend']):
+                        sess = Session(cfg, root)
+                    else:
+                        sess = Session(cfg, root, cacheobj=sess.cacheobj)
+                    if cfg.get('raising'):
+                        pass
+                    sessions.append(sess)
+                except BaseException as e:
+                    if isinstance(e, (KeyboardInterrupt, SystemExit, MemoryError)):
+                        raise
+                    st.exc = e
+                st.evals = 0
+                tr.steps.append(st)
+                prev = None
+                continue
+            if op[0] == 'fork':
+                st = Step(op=op, kind='fork')
+                st.evals = 0
+                try:
+                    st.result = _fork_session(cfg, root, op[1], fork_check)
+                except BaseException as e:
+                    if isinstance(e, (KeyboardInterrupt, SystemExit, MemoryError)):
+                        raise
+                    st.exc = e
+                tr.steps.append(st)
+                prev = None
+                continue
             prev = apply_op(sess, op, tr, prev=prev)
-        _close(sess.cache)
+            prev.extra = len(sessions) - 1
+        for x in sessions:
+            _close(x.cache)
         return tr
     finally:
         if own is not None:
             shutil.rmtree(own.path, ignore_errors=True)
+
+
+def _fork_session(cfg, root, ops, fork_check):
+    """run ops in a forked child on a fresh handle; returns list of (sig, detail) from fork_check"""
+    import pickle
+    r, w = os.pipe()
+    pid = os.fork()
+    if pid == 0:
+        code = 0
+        try:
+            os.close(r)
+            tr2 = Trace(cfg)
+            try:
+                s2 = Session(cfg, root)
+                tr2.fn, tr2.f, tr2.cache = s2.fn, s2.f, s2.cache
+                prev = None
+                for op in expand_ops(ops):
+                    prev = apply_op(s2, op, tr2, prev=prev)
+            except BaseException as e:
+                tr2.setup_exc = e
+            res = fork_check(cfg, tr2) if fork_check else []
+            data = pickle.dumps([(d.sig, str(d.detail)) for d in res])
+            with os.fdopen(w, 'wb') as f:
+                f.write(data)
+        except BaseException:
+            code = 3
+        finally:
+            os._exit(code)
+    os.close(w)
+    with os.fdopen(r, 'rb') as f:
+        data = f.read()
+    _, status = os.waitpid(pid, 0)
+    if status != 0 or not data:
+        raise RuntimeError('forked session failed (status %r)' % status)
+    return pickle.loads(data)
 
 
 def _close(c):
